@@ -532,6 +532,55 @@ func (bridge *ExprBridge) PreprocessLikeExpression(expression string) (string, e
 
 // PreprocessIsNullExpression 预处理IS NULL和IS NOT NULL表达式，转换为expr-lang可理解的表达式
 func (bridge *ExprBridge) PreprocessIsNullExpression(expression string) (string, error) {
+	// 字符串字面量不是代码：'x IS NULL' 之类的文本不得被改写。先把字面量换成占位符，改写后再换回。
+	masked, literals := maskStringLiterals(expression)
+	rewritten, err := bridge.preprocessIsNullMasked(masked)
+	if err != nil {
+		return expression, err
+	}
+	return unmaskStringLiterals(rewritten, literals), nil
+}
+
+// maskStringLiterals replaces every quoted literal by \x00<index>\x00 (no word characters, so no
+// rewrite pattern can match inside or across it) and returns the literals.
+func maskStringLiterals(s string) (string, []string) {
+	var out strings.Builder
+	var lits []string
+	for i := 0; i < len(s); {
+		c := s[i]
+		if c == '\'' || c == '"' {
+			j := i + 1
+			for j < len(s) && s[j] != c {
+				j++
+			}
+			if j < len(s) {
+				lits = append(lits, s[i:j+1])
+				out.WriteByte(0)
+				out.WriteString(strconv.Itoa(len(lits) - 1))
+				out.WriteByte(0)
+				i = j + 1
+				continue
+			}
+		}
+		out.WriteByte(c)
+		i++
+	}
+	return out.String(), lits
+}
+
+var maskedLiteral = regexp.MustCompile("\x00(\\d+)\x00")
+
+func unmaskStringLiterals(s string, lits []string) string {
+	return maskedLiteral.ReplaceAllStringFunc(s, func(m string) string {
+		n, err := strconv.Atoi(m[1 : len(m)-1])
+		if err != nil || n >= len(lits) {
+			return m
+		}
+		return lits[n]
+	})
+}
+
+func (bridge *ExprBridge) preprocessIsNullMasked(expression string) (string, error) {
 	// 匹配复杂表达式的 IS NOT NULL 模式 (如函数调用)
 	complexNotNullPattern := `([A-Za-z_][A-Za-z0-9_]*\s*\([^)]*\))\s+(?i:IS\s+NOT\s+NULL)`
 	reComplexNotNull, err := regexp.Compile(complexNotNullPattern)
